@@ -28,6 +28,9 @@ func c17KeyType(base string) *dm.Type {
 	if base == "enumeration" {
 		return &dm.Type{Base: "enumeration", Enums: []dm.EnumDef{{Name: "red", Value: 1}, {Name: "green", Value: 3}, {Name: "blue", Value: 4}}}
 	}
+	if base == "union" {
+		return &dm.Type{Base: "union", Members: []*dm.Type{{Base: "int32"}, {Base: "string"}}}
+	}
 	return &dm.Type{Base: base}
 }
 
@@ -42,7 +45,7 @@ func c17LookupGen(t *rapid.T) c17LookupCase {
 	case "reflect-struct", "node-struct":
 		bases = []string{"int8", "int32", "int64", "uint16", "uint64", "string", "boolean"}
 	case "rs", "reflect-slice", "node-slice", "json-reader":
-		bases = append(bases, "decimal64", "binary")
+		bases = append(bases, "decimal64", "binary", "union")
 	}
 	for i := 0; i < nk; i++ {
 		c.KeyTypes = append(c.KeyTypes, rapid.SampledFrom(bases).Draw(t, "keytype"))
